@@ -1,5 +1,11 @@
 package main
 
+import (
+	"go/ast"
+	"go/token"
+	"strings"
+)
+
 func init() {
 	factFuncs = append(factFuncs, func(ex *factExtractor) {
 		// default port per scheme: `case "<scheme>": const defaultPort = N` in NewUpstream
@@ -27,5 +33,200 @@ func init() {
 			ok = n == 1
 		}
 		ex.setBool("hostIsTrimmedUrlHost", ok, fd != nil, "NewUpstream: addrUrlHost := tryTrimIpv6Brackets(addrURL.Host), exactly once")
+		c18BootFacts(ex, fd)
 	})
+}
+
+// c18Assigns counts, inside node, the assignments (= and :=, also in if/for
+// headers and range clauses) whose left side contains the plain identifier name.
+func c18Assigns(ex *factExtractor, node ast.Node, name string) int {
+	n := 0
+	ast.Inspect(node, func(x ast.Node) bool {
+		switch s := x.(type) {
+		case *ast.AssignStmt:
+			for _, l := range s.Lhs {
+				if id, ok := l.(*ast.Ident); ok && id.Name == name {
+					n++
+				}
+			}
+		case *ast.RangeStmt:
+			for _, l := range []ast.Expr{s.Key, s.Value} {
+				if id, ok := l.(*ast.Ident); ok && id.Name == name {
+					n++
+				}
+			}
+		case *ast.IncDecStmt:
+			if id, ok := s.X.(*ast.Ident); ok && id.Name == name {
+				n++
+			}
+		}
+		return true
+	})
+	return n
+}
+
+// c18FieldWrites counts, inside node, the assignments to a selector `<x>.field`.
+func c18FieldWrites(ex *factExtractor, node ast.Node, field string) int {
+	n := 0
+	ast.Inspect(node, func(x ast.Node) bool {
+		if s, ok := x.(*ast.AssignStmt); ok {
+			for _, l := range s.Lhs {
+				if sel, ok := l.(*ast.SelectorExpr); ok && sel.Sel.Name == field {
+					n++
+				}
+			}
+		}
+		if cl, ok := x.(*ast.CompositeLit); ok && ex.str(cl.Type) == "Bootstrap" {
+			n += 100 // a Bootstrap built by a literal: not the recognised shape
+		}
+		return true
+	})
+	return n
+}
+
+// The bootstrap path (host names resolved through Opt.Bootstrap): which
+// Bootstrap an upstream holds, what that Bootstrap asks for and appends, and
+// what NewUpstream hands to it.
+func c18BootFacts(ex *factExtractor, newUpstream *ast.FuncDecl) {
+	const brel = "pkg/upstream/bootstrap/bootstrap.go"
+	bf := ex.file(brel)
+
+	// ---- bootstrap.New builds one Bootstrap per call from its own arguments
+	const noteNew = "bootstrap.New: every call allocates its own Bootstrap (dp := new(Bootstrap), the only thing it returns), stores Fqdn(host) and port of this call in it unconditionally; the package keeps no package-level state besides error values"
+	if fd := ex.fn(brel, "", "New"); fd != nil && bf != nil {
+		var top []string
+		for _, s := range fd.Body.List {
+			top = append(top, ex.str(s))
+		}
+		params := ""
+		if fd.Type.Params != nil {
+			for _, f := range fd.Type.Params.List {
+				for _, n := range f.Names {
+					params += n.Name + " "
+				}
+			}
+		}
+		retOK, retDp := true, 0
+		ast.Inspect(fd.Body, func(x ast.Node) bool {
+			if _, isLit := x.(*ast.FuncLit); isLit {
+				retOK = false // a closure inside New: not the recognised shape
+			}
+			if r, ok := x.(*ast.ReturnStmt); ok {
+				s := ex.str(r)
+				switch {
+				case s == "return dp, nil":
+					retDp++
+				case strings.HasPrefix(s, "return nil, "):
+				default:
+					retOK = false
+				}
+			}
+			return true
+		})
+		pkgStateless := true
+		for _, d := range bf.Decls {
+			gd, ok := d.(*ast.GenDecl)
+			if !ok || gd.Tok != token.VAR {
+				continue
+			}
+			for _, sp := range gd.Specs {
+				vs := sp.(*ast.ValueSpec)
+				if len(vs.Values) != len(vs.Names) {
+					pkgStateless = false
+				}
+				for _, v := range vs.Values {
+					if c, ok := v.(*ast.CallExpr); !ok || ex.str(c.Fun) != "errors.New" {
+						pkgStateless = false
+					}
+				}
+			}
+		}
+		ok := strings.HasPrefix(params, "host port ") &&
+			contains(top, "dp := new(Bootstrap)") && contains(top, "dp.fqdn = dns.Fqdn(host)") && contains(top, "dp.port = port") &&
+			c18Assigns(ex, fd.Body, "dp") == 1 && c18Assigns(ex, fd.Body, "host") == 0 && c18Assigns(ex, fd.Body, "port") == 0 &&
+			retOK && retDp == 1 && pkgStateless
+		ex.setBool("c18BootNewPerCall", ok, true, noteNew)
+	} else {
+		ex.setBool("c18BootNewPerCall", false, false, noteNew)
+	}
+
+	// ---- the address string is the resolved address joined with the Bootstrap's own port; the question is its own name
+	const noteAddr = "Bootstrap: resolve asks the bootstrap server for sp.fqdn; updateAddr publishes netip.AddrPortFrom(<resolved addr>, sp.port).String(); GetAddrPortStr returns that string; fqdn, port and addrStr are each written at one place only"
+	ua, ga, rs := ex.fn(brel, "Bootstrap", "updateAddr"), ex.fn(brel, "Bootstrap", "GetAddrPortStr"), ex.fn(brel, "Bootstrap", "resolve")
+	if ua != nil && ga != nil && rs != nil && bf != nil {
+		us, gs, rss := stmtStrings(ex, ua.Body), stmtStrings(ex, ga.Body), stmtStrings(ex, rs.Body)
+		gret := 0
+		for _, s := range gs {
+			if strings.HasPrefix(s, "return ") && strings.HasSuffix(s, ", nil") {
+				gret++
+			}
+		}
+		ok := contains(us, "addr, ttl, err := sp.resolve(ctx, sp.qt)") &&
+			contains(us, "addrPort := netip.AddrPortFrom(addr, sp.port).String()") && contains(us, "sp.addrStr = addrPort") &&
+			c18Assigns(ex, ua.Body, "addr") == 1 && c18Assigns(ex, ua.Body, "addrPort") == 1 &&
+			contains(gs, "addr := sp.addrStr") && contains(gs, "return addr, nil") && gret == 1 && c18Assigns(ex, ga.Body, "addr") == 1 &&
+			contains(rss, "q.SetQuestion(sp.fqdn, qt)") && contains(rss, `c, err := net.DialUDP("udp", nil, sp.bootstrap)`) &&
+			c18FieldWrites(ex, bf, "addrStr") == 1 && c18FieldWrites(ex, bf, "port") == 1 && c18FieldWrites(ex, bf, "fqdn") == 1
+		ex.setBool("c18BootAddrOwnPort", ok, true, noteAddr)
+	} else {
+		ex.setBool("c18BootAddrOwnPort", false, false, noteAddr)
+	}
+
+	// ---- NewUpstream hands parseDialAddr's host and port to bootstrap.New and dials the string it gets back
+	const noteCall = "NewUpstream (newTcpDialer, newUdpAddrResolveFunc): host, port := parseDialAddr(addrUrlHost, opt.DialAddr, defaultPort) go unchanged into bootstrap.New(host, port, ...), and the dial uses the string of that Bootstrap's GetAddrPortStr"
+	if newUpstream != nil {
+		okAll := true
+		nNew, nGet := 0, 0
+		ast.Inspect(newUpstream.Body, func(x ast.Node) bool {
+			if c, ok := x.(*ast.CallExpr); ok {
+				switch f := ex.str(c.Fun); {
+				case f == "bootstrap.New":
+					nNew++
+					var as []string
+					for _, a := range c.Args {
+						as = append(as, ex.str(a))
+					}
+					if strings.Join(as, ", ") != "host, port, bootstrapAp, opt.BootstrapVer, opt.Logger" {
+						okAll = false
+					}
+				case strings.HasSuffix(f, ".GetAddrPortStr"):
+					nGet++
+					if f != "bs.GetAddrPortStr" {
+						okAll = false
+					}
+				}
+			}
+			return true
+		})
+		for _, name := range []string{"newUdpAddrResolveFunc", "newTcpDialer"} {
+			var lit *ast.FuncLit
+			for _, s := range newUpstream.Body.List {
+				if as, ok := s.(*ast.AssignStmt); ok && len(as.Lhs) == 1 && len(as.Rhs) == 1 && ex.str(as.Lhs[0]) == name {
+					lit, _ = as.Rhs[0].(*ast.FuncLit)
+				}
+			}
+			if lit == nil || len(lit.Body.List) == 0 ||
+				ex.str(lit.Body.List[0]) != "host, port, err := parseDialAddr(addrUrlHost, opt.DialAddr, defaultPort)" ||
+				c18Assigns(ex, lit.Body, "host") != 1 || c18Assigns(ex, lit.Body, "port") != 1 || c18Assigns(ex, lit.Body, "bs") != 1 ||
+				countStr(stmtStrings(ex, lit.Body), "bs, err := bootstrap.New(host, port, bootstrapAp, opt.BootstrapVer, opt.Logger)") != 1 {
+				okAll = false
+				continue
+			}
+			ss := stmtStrings(ex, lit.Body)
+			if name == "newTcpDialer" {
+				i := indexOf(ss, "dialAddr, err := bs.GetAddrPortStr(ctx)")
+				if i < 0 || i+3 >= len(ss) || ss[i+3] != `return dialer.DialContext(ctx, "tcp", dialAddr)` {
+					okAll = false
+				}
+			} else {
+				i := indexOf(ss, "s, err := bs.GetAddrPortStr(ctx)")
+				if i < 0 || i+3 >= len(ss) || ss[i+3] != `return net.ResolveUDPAddr("udp", s)` {
+					okAll = false
+				}
+			}
+		}
+		ex.setBool("c18BootCallsPassTarget", okAll && nNew == 2 && nGet == 2, true, noteCall)
+	} else {
+		ex.setBool("c18BootCallsPassTarget", false, false, noteCall)
+	}
 }
